@@ -291,6 +291,9 @@ class Engine:
         if isinstance(v, (SInt, SReal)):
             yield from self.branch(st, v.z != 0, note)
             return
+        if isinstance(v, SStr):
+            yield from self.branch(st, v.z != str_const(""), note)
+            return
         if isinstance(v, (int, Fraction, str, tuple, frozenset, list, dict, set)):
             yield st, bool(v)
             return
@@ -542,7 +545,12 @@ class Engine:
                 yield from self.exec_block(node.body if b else node.orelse, s2)
 
     def _narrow(self, test, st, outcome):
-        """after branching on `x is None` / `x is not None`: an optional local is narrowed to the alternative the branch selects"""
+        """after branching on `x is None` / `x is not None` / `x` : an optional local is narrowed to the alternative the branch selects"""
+        if isinstance(test, ast.Name) and outcome and isinstance(st.frame.vars.get(test.id), SUnion):
+            alts = [(g, a) for g, a in st.frame.vars[test.id].alts if a is not None]
+            if len(alts) == 1:
+                st.frame.vars[test.id] = alts[0][1]
+            return
         if not (isinstance(test, ast.Compare) and len(test.ops) == 1 and isinstance(test.ops[0], (ast.Is, ast.IsNot))
                 and isinstance(test.left, ast.Name) and isinstance(test.comparators[0], ast.Constant) and test.comparators[0].value is None):
             return
@@ -949,6 +957,7 @@ class Engine:
         s = st
         self._havoc(node, spec, s)
         self._assume_inv(spec, s, {"_pre": pre})
+        snap = self._frame_snapshot(s)
         for s1, c in self.ev(node.test, s):
             if isinstance(c, ExcVal):
                 yield s1, ("raise", c)
@@ -958,6 +967,7 @@ class Engine:
                     for s3, out in self.exec_block(node.body, s2):
                         if out is NORMAL or out[0] == "continue":
                             self._oblige_inv(spec, s3, {"_pre": pre}, label + ":preserve")
+                            self._frame_check(node, spec, snap, s3, label)
                             self.sink(s3)
                         elif out[0] == "break":
                             yield s3, NORMAL
@@ -991,6 +1001,44 @@ class Engine:
 
     bounded_used = False
 
+    def _frame_snapshot(self, st):
+        return ({k: v for k, v in st.frame.vars.items()}, dict(st.heap))
+
+    def _frame_check(self, node, spec, snap, st, label):
+        """the loop body may only write what the cut-point havoced: a write outside the `modifies` clause would make the assumed
+        invariant refer to a stale value (unsound), so it is an obligation failure"""
+        vars0, heap0 = snap
+        names = set(spec.modifies if spec.modifies is not None else _assigned_names(node)) | set(spec.opaque)
+        plain = {n for n in names if "." not in n}
+        dotted = {n for n in names if "." in n}
+        for k, v in st.frame.vars.items():
+            if k.startswith("_") or k in plain:
+                continue
+            if k in vars0 and vars0[k] is not v and not _same_plain(vars0[k], v):
+                st.oblige(f"{label}:frame: the loop assigns `{k}`, which is not in its modifies clause", z3.BoolVal(False))
+        havoced_locs = set()
+        for n in plain:
+            v0 = vars0.get(n)
+            if isinstance(v0, Loc):
+                havoced_locs.add(v0.id)
+        for n in dotted:
+            base, fld = n.split(".", 1)
+            b = vars0.get(base)
+            if isinstance(b, Loc) and b.id in heap0 and isinstance(heap0[b.id], Rec):
+                havoced_locs.add(("field", b.id, fld))
+                f0 = heap0[b.id].fields.get(fld)
+                if isinstance(f0, Loc):
+                    havoced_locs.add(f0.id)
+        for lid, c in st.heap.items():
+            if lid not in heap0 or heap0[lid] is c or lid in havoced_locs:
+                continue
+            if isinstance(c, Rec) and isinstance(heap0[lid], Rec):
+                for fld, fv in c.fields.items():
+                    if heap0[lid].fields.get(fld) is not fv and not _same_plain(heap0[lid].fields.get(fld), fv) and ("field", lid, fld) not in havoced_locs:
+                        st.oblige(f"{label}:frame: the loop writes field `{fld}` of an object, which is not in its modifies clause", z3.BoolVal(False))
+                continue
+            st.oblige(f"{label}:frame: the loop mutates a container that is not in its modifies clause", z3.BoolVal(False))
+
     def _inv_items(self, spec, st, extra):
         r = spec.inv(L(self, st, extra))
         if isinstance(r, (list, tuple)):
@@ -1013,9 +1061,9 @@ class Engine:
         for name in names:
             if name in spec.opaque:
                 continue
-            if name.startswith("self."):
-                selfv = st.frame.vars["self"]
-                fld = name[5:]
+            if "." in name and name.split(".", 1)[0] in st.frame.vars and isinstance(st.frame.vars[name.split(".", 1)[0]], Loc):
+                selfv = st.frame.vars[name.split(".", 1)[0]]
+                fld = name.split(".", 1)[1]
                 cur = st.getfield(selfv, fld)
                 t = spec.types.get(name)
                 if isinstance(cur, Loc):
@@ -1136,15 +1184,19 @@ class Engine:
         s.frame.vars[f"_loop{node._loop_ordinal}_i"] = i
         s.frame.vars[f"_loop{node._loop_ordinal}_seq"] = seq
         self._assume_inv(spec, s, {"_i": i, "_seq": seq, "_pre": pre})
+        snap = self._frame_snapshot(s)
+        tnames = {n.id for n in ast.walk(node.target) if isinstance(n, ast.Name)}
         for s1, more in self.branch(s, i.z < seq.n, f"for{self.line(s, node)}"):
             if more:
                 for s2, out in self.assign(node.target, seq.at(i), s1):
                     if out is not NORMAL:
                         yield s2, out
                         continue
+                    snap2 = ({k: v for k, v in snap[0].items() if k not in tnames} | {k: s2.frame.vars[k] for k in tnames if k in s2.frame.vars}, snap[1])
                     for s3, out2 in self.exec_block(node.body, s2):
                         if out2 is NORMAL or out2[0] == "continue":
                             self._oblige_inv(spec, s3, {"_i": i + 1, "_seq": seq, "_pre": pre}, label + ":preserve")
+                            self._frame_check(node, spec, snap2, s3, label)
                             self.sink(s3)
                         elif out2[0] == "break":
                             yield s3, NORMAL
@@ -1661,7 +1713,8 @@ class Engine:
             yield st, OPAQUE
             return
         if any(isinstance(a, StarSeq) for a in args):
-            if not isinstance(f, SymMethod):
+            import itertools as _it
+            if not isinstance(f, SymMethod) and f is not _it.chain:
                 raise Unsupported("star-call with symbolic-length sequence to non-contract callee")
         if isinstance(f, BoundMethod):
             fn = f.func
@@ -1933,6 +1986,25 @@ def _has_quantifier(e):
         _qcache.clear()
     _qcache[i] = (e, found)
     return found
+
+
+def _same_plain(a, b):
+    """two concrete immutable python values that are equal (re-assigning the same constant is not a write worth flagging), or a
+    value narrowed to one of the alternatives of an optional (a refinement made by a None test, not a write)"""
+    if isinstance(a, SUnion):
+        alts = [x for _, x in a.alts]
+        if b is None and any(x is None for x in alts):
+            return True
+        if any(b is x for x in alts):
+            return True
+        if isinstance(b, SUnion) and all(any(y is x for x in alts) for _, y in b.alts):
+            return True
+    if isinstance(a, (SV, Loc)) or isinstance(b, (SV, Loc)):
+        return False
+    try:
+        return type(a) is type(b) and a == b and isinstance(a, (int, str, bool, type(None), Fraction, tuple, enum.Enum))
+    except Exception:  # noqa
+        return False
 
 
 def _mergeable_body(stmts):
